@@ -646,6 +646,125 @@ def regenerate_shutdown():
     return errors, changed
 
 
+# ======================================================================================= T-fwd
+def generate_forward():
+    """PersistentRemoteWorker._fetch_results -> Gen/Forward.lean (a `Forward.Cfg`). Every statement of the function must be
+    recognised; anything else is untranslatable (broken tie)."""
+    sys.path.insert(0, str(REPO))
+    out = ['import PwVerif.Model.Forward', '/-! GENERATED by harness/translate.py (T-fwd) from /repo - do not edit. -/', 'namespace PwVerif.Gen', 'open PwVerif.Forward', '']
+    errors = []
+    MARKER = r"self\._results_pipe\.child_end\.put\(\(counter, False, None, self\.id\)\)"
+    FLAG = r"last_partial_result_signalled = True"
+    IGN = [r"logger\.\w+\(.*\)", r"self\._socket_closed = True", r"self\._result = \(False, None\)", r"self\._result = result",
+           r"assert value is None", r"assert wid == self\.id", r"assert len\(result\) == 2", r"remote_counter, valid, value, wid = result"]
+
+    def ignorable(txt):
+        return any(re.fullmatch(rx, txt, re.S) for rx in IGN)
+
+    def guarded_marker(stmts, where):
+        """stmts contain `if not last_partial_result_signalled: put(marker) [; flag = True]` -> True; absent -> False"""
+        found = False
+        for st in stmts:
+            if isinstance(st, ast.If) and ast.unparse(st.test) == 'not last_partial_result_signalled':
+                body = [ast.unparse(x) for x in st.body]
+                if st.orelse or not body or not re.fullmatch(MARKER, body[0]) or any(not (re.fullmatch(FLAG, b) or ignorable(b)) for b in body[1:]):
+                    raise Untranslatable(f'{where}: unexpected guarded block `{ast.unparse(st)}`')
+                found = True
+        return found
+    try:
+        c = getattr(importlib.import_module('pyworkers.persistent_remote'), 'PersistentRemoteWorker')
+        t = Translator(c)
+        fn, path = t.func_ast('_fetch_results')
+        body = fn.body
+        txts = [ast.unparse(x) for x in body]
+        if txts[:2] != ['counter = 0', 'last_partial_result_signalled = False'] or not isinstance(body[2], ast.While) or ast.unparse(body[2].test) != 'True':
+            raise Untranslatable(f'{path.name}:{fn.lineno}: unexpected prologue of _fetch_results')
+        loop = body[2]
+        after = body[3:]
+        # ---- after the loop
+        rest = [x for x in after if not (isinstance(x, ast.If) and ast.unparse(x.test) == 'not last_partial_result_signalled')]
+        if [ast.unparse(x) for x in rest] != ['self._results_pipe.child_end.close()']:
+            raise Untranslatable(f'{path.name}: unexpected statements after the loop of _fetch_results: {[ast.unparse(x) for x in rest]}')
+        after_marker = guarded_marker(after, 'after the loop')
+        # ---- the receive with its handler
+        tr = loop.body[0]
+        if not (isinstance(tr, ast.Try) and len(tr.body) == 1 and re.fullmatch(r"result = recv_msg\(self\._socket, comment='data: result'\)", ast.unparse(tr.body[0]))
+                and len(tr.handlers) == 1 and ast.unparse(tr.handlers[0].type) == 'ConnectionClosedError' and not tr.finalbody and not tr.orelse):
+            raise Untranslatable(f'{path.name}:{tr.lineno}: unexpected receive statement')
+        h = tr.handlers[0].body
+        if not isinstance(h[-1], ast.Break):
+            raise Untranslatable(f'{path.name}:{tr.lineno}: the ConnectionClosedError handler does not leave the loop')
+        for x in h[:-1]:
+            if not isinstance(x, ast.If) and not ignorable(ast.unparse(x)):
+                raise Untranslatable(f'{path.name}:{x.lineno}: no pattern for `{ast.unparse(x)}`')
+        closed_marker = guarded_marker(h, 'ConnectionClosedError handler')
+        # ---- dispatch on the message
+        disp = loop.body[1]
+        if len(loop.body) != 2 or not (isinstance(disp, ast.If) and ast.unparse(disp.test) == 'len(result) > 2'):
+            raise Untranslatable(f'{path.name}: unexpected loop body of _fetch_results')
+        four = disp.body
+        if not re.fullmatch(IGN[-1], ast.unparse(four[0])) or len(four) != 2 or not (isinstance(four[1], ast.If) and ast.unparse(four[1].test) == 'not valid'):
+            # allow leading asserts that are ignorable
+            lead = [x for x in four[:-1] if not ignorable(ast.unparse(x))]
+            if lead or not (isinstance(four[-1], ast.If) and ast.unparse(four[-1].test) == 'not valid'):
+                raise Untranslatable(f'{path.name}:{disp.lineno}: unexpected handling of a 4-tuple message')
+        vi = four[-1]
+
+        def order(stmts, put_rx, where):
+            """returns (put_index, first_counter_assert_index, assert kind, sets_flag)"""
+            put_i = ass_i = None
+            kind = 'none'
+            flag = False
+            for i, x in enumerate(stmts):
+                txt = ast.unparse(x)
+                if re.fullmatch(put_rx, txt):
+                    put_i = i
+                elif re.fullmatch(FLAG, txt):
+                    flag = True
+                elif re.fullmatch(r"assert remote_counter == counter(, .*)?", txt, re.S) or re.fullmatch(r"assert counter == remote_counter(, .*)?", txt, re.S):
+                    ass_i, kind = (i if ass_i is None else ass_i), 'eqCounter'
+                elif re.fullmatch(r"assert remote_counter in \(counter, counter \+ 1\)(, .*)?", txt, re.S):
+                    ass_i, kind = (i if ass_i is None else ass_i), 'eqOrNext'
+                elif re.fullmatch(r"counter \+= 1", txt):
+                    pass
+                elif isinstance(x, ast.Assert) and ignorable(txt):
+                    ass_i = i if ass_i is None else ass_i      # any assert may kill the thread
+                elif not ignorable(txt):
+                    raise Untranslatable(f'{where}:{x.lineno}: no pattern for `{txt}`')
+            if put_i is None:
+                raise Untranslatable(f'{where}: the message is not forwarded')
+            return put_i, ass_i, kind, flag
+        PUT = r"self\._results_pipe\.child_end\.put\(result\)"
+        e_put, e_ass, e_kind, e_flag = order(vi.body, PUT, path.name)
+        i_put, i_ass, i_kind, _ = order(vi.orelse, PUT, path.name)
+        if not any(re.fullmatch(r"counter \+= 1", ast.unparse(x)) for x in vi.orelse) or ast.unparse(vi.orelse[0]) != 'counter += 1':
+            raise Untranslatable(f'{path.name}: the result branch does not start by counting the result')
+        # ---- final result
+        fin = disp.orelse
+        if not isinstance(fin[-1], ast.Break):
+            raise Untranslatable(f'{path.name}: the final-result branch does not leave the loop')
+        for x in fin[:-1]:
+            if isinstance(x, ast.Try):
+                continue        # the optional user-state message
+            if not ignorable(ast.unparse(x)):
+                raise Untranslatable(f'{path.name}:{x.lineno}: no pattern for `{ast.unparse(x)}`')
+        b = lambda v: str(bool(v)).lower()  # noqa: E731
+        out.append(f'/-- `PersistentRemoteWorker._fetch_results` ({path.name}:{fn.lineno}) -/')
+        out.append('def fwdCfg : Cfg :=\n  { closedPutsMarker := %s, endPutBeforeAssert := %s, endAssert := .%s, endSetsFlag := %s,\n    itemPutBeforeAssert := %s, itemAssertsCounter := %s, afterLoopPutsMarker := %s }\n'
+                   % (b(closed_marker), b(e_ass is None or e_put < e_ass), e_kind, b(e_flag), b(i_ass is None or i_put < i_ass), b(i_kind == 'eqCounter'), b(after_marker)))
+    except Exception as e:
+        errors.append(f'forward: {type(e).__name__}: {e}')
+        out.append('def fwdCfg : Cfg := ⟨false, false, .eqCounter, false, false, true, false⟩\n')
+    out.append('end PwVerif.Gen')
+    return '\n'.join(out) + '\n', errors
+
+
+def regenerate_forward():
+    text, errors = generate_forward()
+    changed = write_if_changed(LEAN / 'PwVerif' / 'Gen' / 'Forward.lean', text)
+    return errors, changed
+
+
 if __name__ == '__main__':
     errs, meta, changed = regenerate()
     print('RunLoops.lean', 'rewritten' if changed else 'unchanged')
@@ -659,7 +778,9 @@ if __name__ == '__main__':
     print('Frontend.lean', 'rewritten' if changed5 else 'unchanged')
     errs6, changed6 = regenerate_shutdown()
     print('ShutdownPaths.lean', 'rewritten' if changed6 else 'unchanged')
-    errs2 = errs2 + errs3 + errs4 + errs5 + errs6
+    errs7, changed7 = regenerate_forward()
+    print('Forward.lean', 'rewritten' if changed7 else 'unchanged')
+    errs2 = errs2 + errs3 + errs4 + errs5 + errs6 + errs7
     for e in errs + errs2:
         print('UNTRANSLATABLE', e)
     sys.exit(1 if errs or errs2 else 0)
